@@ -51,6 +51,7 @@ def mk_response(params, cons, table):
 def case(prog, params):
     table = load_status_table()
     ex = H.new_executor(prog, max_block_visits=200)
+    if params.get('parts'): ex.fork_read_until = 6
     cons = []
     res = {'violations': [], 'inconclusive': [], 'samples': [], 'kinds': {}, 'compared': 0}
     if params['ob'] == 'corrupt':
@@ -164,7 +165,7 @@ def main():
                 for hl in P['hlens']:
                     cases.append(dict(ob='rt', ser=ser, code=200, nh=1, hlen=hl, blen=bl, ctlen=cl))
     for ser in ('generate_response', 'generate'):
-        for parts in ([(1, 1), (2, 1), (1, 2)] if chk.tier == 'quick' else [(1, 1), (2, 1), (1, 2), (2, 2), (0, 1), (1, 1, 1)]):
+        for parts in ([(1, 1), (2, 1), (1, 2), (2, 2), (0, 1), (1, 0), (3, 2), (1, 1, 1)] if chk.tier == 'quick' else [(1, 1), (2, 1), (1, 2), (2, 2), (0, 1), (1, 0), (3, 1), (1, 3), (3, 3), (1, 1, 1), (2, 1, 2), (4, 2), (5, 1), (4, 4), (2, 2, 2)]):
             cases.append(dict(ob='rt', ser=ser, code=206, nh=0, hlen=(1, 1), parts=list(parts)))
     cases += [dict(ob='corrupt', what='unknown-status-code', line='HTTP/1.1 299 OK'), dict(ob='corrupt', what='mismatched-reason-phrase', line='HTTP/1.1 200 Not Found'),
               dict(ob='corrupt', what='unsupported-version', line='HTTP/9.9 200 OK'), dict(ob='corrupt', what='missing-reason', line='HTTP/1.1 200')]
